@@ -344,3 +344,42 @@ Theorem C04_marker_matrix :
   forallb (fun L => forallb (Proofs.C04_Matrix.c04m_ok L) Proofs.C04_Matrix.c04m_bases) all_langs = true.
 Proof. exact Proofs.C04_Matrix.matrix_closed. Qed.
 Print Assumptions C04_marker_matrix.
+
+(* ------------------------------------------------------------------ glue *)
+(* Go, ANY configuration of acronyms: the marker parts write_field decides itself - `,omitempty` iff Option or
+   default, its own `*` iff default on a non-Option type - and the type handed to the acronym rewrite is
+   `*`-headed iff Option, with the translation of T under the `*` *)
+Theorem C04_back_go_field_markers :
+  forall (uc : unicode) (cfg : go_config) f g s m s',
+    go_no_pointer_slice cfg = false -> type_override f Go = None ->
+    (is_optional (fty f) = true -> tmap_get (go_type_mappings cfg) (rtype_display (fty f)) = None) ->
+    go_member_of uc cfg g f s = Ok (m, s') ->
+    gm_omitempty m = (is_optional (fty f) || has_default f) /\
+    gm_star m = (has_default f && negb (is_optional (fty f))) /\
+    exists x s1 s2 y s3 s4, go_texp cfg g (fty f) s = Ok (x, s1) /\ go_acronyms_ty uc cfg x s1 = Ok (gm_type m, s2) /\
+      go_texp cfg g (Proofs.C04.c04_strip (fty f)) s3 = Ok (y, s4) /\ c04_strip_gptr x = y /\ c04_is_gptr x = is_optional (fty f).
+Proof. exact Proofs.C04_Back.go_field_markers. Qed.
+Print Assumptions C04_back_go_field_markers.
+
+(* the expectation the back-end theorems are stated against IS the source's: Option depth of the declared
+   type and the bare default word (what checks/c04.py computes with the extracted c04_file_cells) *)
+Theorem C04_expectation_from_source :
+  forall (uc : unicode) (tstr : str -> option ty) check_flatten rename_all (f : field) (rf : rfield) pos ref,
+    get_field_type_override uc (f_attrs f) = None ->
+    parse_field uc tstr check_flatten rename_all f = Ok rf ->
+    Proofs.C04_Back.c04_expect_of pos (fty rf) (has_default rf) ref =
+    {| c04e_pos := pos; c04e_depth := c04_opt_depth (f_ty f); c04e_default := bare_default (f_attrs f); c04e_ref := ref |}.
+Proof. exact Proofs.C04_Back.expectation_from_source. Qed.
+Print Assumptions C04_expectation_from_source.
+
+(* Model/Lang/Decl.v's mb_optional (the observation the other back-end properties use) is the marker the C04
+   readers report *)
+Theorem C04_decl_optional_agrees :
+  (forall d p m, mb_optional (ts_obs_member m) = c04s_type_mark (c04r_seen (ts_c04_member d p m))) /\
+  (forall d p m, mb_optional (kt_obs_member m) = c04s_init_mark (c04r_seen (kt_c04_member d p m))) /\
+  (forall d m, mb_optional (sw_obs_member m) = c04s_type_mark (c04r_seen (sw_c04_member d m))) /\
+  (forall d m, mb_optional (sc_obs_member m) = c04s_init_mark (c04r_seen (sc_c04_member d m))) /\
+  (forall d m, mb_optional (go_obs_member m) = c04s_init_mark (c04r_seen (go_c04_member d m))) /\
+  (forall d m, mb_optional (py_obs_member m) = c04s_type_mark (c04r_seen (py_c04_member d m)) && c04s_init_mark (c04r_seen (py_c04_member d m))).
+Proof. exact Proofs.C04_Back.decl_optional_agrees. Qed.
+Print Assumptions C04_decl_optional_agrees.
